@@ -57,7 +57,11 @@ def run(ctx):
     res = Result()
     res.rule = ("every class of every flavour x every integer part of every operand slot x values just outside "
                 "(one past either end), far outside (up to 1e20) and just inside, through direct construction "
-                "(plain, numpy and bool immediates; also assigned IN PLACE to an instruction that was serialised before), the text assembler and the SDK (rotations x3 axes x vanilla/"
+                "(plain, numpy and bool immediates; also assigned IN PLACE to an instruction that was serialised before; "
+                "whole Subroutine / ProtoSubroutine objects encoded, edited in place -- operand via field or setter, "
+                "operand object, list append/insert/item assignment, app id, instantiate -- and encoded again through "
+                "bytes(sub), sub.__bytes__(), sub.cstructs and SubroutineMessage, judged against a fresh encode of the "
+                "same content), the text assembler and the SDK (rotations x3 axes x vanilla/"
                 "NV/NV-hardware, measurement bases, app ids); non-trivial = some part out of range; distinct by "
                 "(route, flavour, class, operands)")
     rng = ctx.rng
@@ -193,6 +197,105 @@ def run(ctx):
         if (rb is None) != badm or (rb is not None and rb[2] + 256 * rb[3] != app):
             _mk(res, "app id assigned in place after a first serialisation: altered or accepted out of range",
                 {"app": app, "bytes": rb})
+
+    # ------------------------------------------------------------ object histories, subroutine level
+    # ONE Subroutine object: encode it, edit it in place (operand assigned through a field or a property
+    # setter, operand objects mutated, instruction list append / insert / item assignment, app id,
+    # instantiate), encode it again through every public route: the outcome must be that of a FRESH
+    # encode of the same content -- an unrepresentable operand raises, nothing stale is returned
+    import copy as _copy
+    from netqasm.lang.subroutine import Subroutine as _Sub
+    n_sh = 2500 if thorough else 500
+    sh = []
+    for _ in range(n_sh):
+        fname = rng.choice(list(H.FLAVOURS))
+        instrs = [_copy.deepcopy(H.random_instr(fname, rng)) for _ in range(rng.randrange(1, 6))]
+        sub = _Sub(instructions=instrs, app_id=rng.choice([0, 1, 65535]), netqasm_version=(0, 0))
+        steps = []
+        try:
+            first_how = rng.choice(R.ENCODERS)
+            first, exc = R.encode_via(sub, first_how)
+            steps.append({"encode": first_how, "raised": exc})
+            for _e in range(rng.randrange(1, 4)):
+                steps.append(R.edit_subroutine(sub, fname, rng))
+                if rng.random() < 0.3:
+                    how = rng.choice(R.ENCODERS)
+                    steps.append({"encode": how, "raised": R.encode_via(sub, how)[1]})
+            js, app, bad = R.content_of(sub)
+            outcomes = {how: R.encode_via(sub, how) for how in R.ENCODERS}
+            fresh = R.encode_via(R.fresh_copy(sub), "bytes(sub)")
+        except Exception as e:  # a legal step raises inside the real code
+            _mk(res, "a subroutine history of legal steps raises outside an encode", {"fl": fname, "steps": steps,
+                "exception": type(e).__name__ + ": " + str(e)[:160]})
+            continue
+        sh.append((fname, steps, js, app, bad, outcomes, fresh))
+    sm2 = ctx.driver.batch([{"op": "reject.encsub", "fl": f, "v0": 0, "v1": 0, "app": app, "is": js}
+                            for f, _, js, app, _, _, _ in sh])
+    for (fname, steps, js, app, bad, outcomes, fresh), m in zip(sh, sm2):
+        res.evaluations += 1
+        res.count("sub-history:" + ("rejected" if fresh[0] is None else "encoded"))
+        for st in steps:
+            if "edit" in st:
+                res.count("sub-history-edit:" + st["edit"])
+        if bad:
+            res.nontrivial.add(("sub-history", fname, json.dumps(steps, sort_keys=True, default=str)[:2000]))
+        if fresh[0] != m.get("b"):
+            res.disagreements.append({"stream": "reject.sub-history", "input": {"fl": fname, "content": js, "app": app},
+                                      "model": m.get("b"), "code": fresh[0]})
+        for how, (rb, exc) in outcomes.items():
+            if rb != fresh[0]:
+                _mk(res, "encoding an edited subroutine object differs from a fresh encode of the same content "
+                         "(stale bytes / missing rejection)",
+                    {"fl": fname, "steps": steps, "route": how, "content_now": js, "app_id": app,
+                     "unrepresentable": bad, "edited_object": rb if rb is None else rb[:64],
+                     "fresh_encode": fresh[0] if fresh[0] is None else fresh[0][:64], "fresh_raises": fresh[1]})
+                break
+            if bad and rb is not None:
+                _mk(res, "unrepresentable operand accepted after an in-place edit of an encoded subroutine",
+                    {"fl": fname, "steps": steps, "route": how, "content_now": js, "app_id": app, "bytes": rb[:64]})
+                break
+    # proto-subroutine level: assemble + encode, edit an ICmd operand in place, assemble + encode again
+    from netqasm.lang.parsing.text import assemble_subroutine, parse_text_protosubroutine
+    from netqasm.lang.operand import Register as _Reg
+    from netqasm.lang.encoding import RegisterName
+    for _ in range(200 if thorough else 40):
+        fname = rng.choice(list(H.FLAVOURS))
+        picks = []
+        while len(picks) < 3:
+            c = rng.choice(H.flavour_classes(fname))
+            ops = [R.base_operand_json(k, rng) for k in H.shape_of(c)]
+            if R.renderable(ops) and H.shape_of(c):
+                picks.append((c, ops))
+        text = "# NETQASM 0.0\n# APPID 0\n" + "\n".join(
+            " ".join([c.mnemonic] + [R.render_operand(o) for o in ops]) for c, ops in picks)
+        res.evaluations += 1
+        try:
+            proto = parse_text_protosubroutine(text)
+            first = bytes(assemble_subroutine(_copy.deepcopy(proto), flavour=H.FLAVOURS[fname]()))
+            k = rng.randrange(len(picks))
+            c, ops = picks[k]
+            regs = [j for j, kd in enumerate(H.shape_of(c)) if kd == "reg"]
+            imms = [j for j, kd in enumerate(H.shape_of(c)) if kd in ("imm8", "int32")]
+            if regs and (not imms or rng.random() < 0.5):
+                j = rng.choice(regs)
+                proto.commands[k].operands[j] = _Reg(RegisterName.R, rng.choice([16, 17, 300]))
+            elif imms:
+                j = rng.choice(imms)
+                proto.commands[k].operands[j] = rng.choice([2 ** 32 + 5, -2 ** 31 - 1, 2 ** 40])
+            else:
+                continue
+            res.nontrivial.add(("proto-history", text, k, j))
+            res.count("proto-history")
+            try:
+                second = list(bytes(assemble_subroutine(proto, flavour=H.FLAVOURS[fname]())))
+            except Exception:
+                second = None
+            if second is not None:
+                _mk(res, "unrepresentable operand accepted after an in-place edit of a ProtoSubroutine command",
+                    {"fl": fname, "text": text, "edited_command": k, "slot": j, "bytes": second[:64]})
+        except Exception as e:
+            _mk(res, "a proto-subroutine history of legal steps raises outside the final encode",
+                {"fl": fname, "text": text, "exception": type(e).__name__ + ": " + str(e)[:160]})
 
     # ------------------------------------------------------------ metadata (app id, version)
     meta = []
